@@ -1337,3 +1337,4 @@ def unit_block_readers(twin=False):
     return r
 
 from props.c14_ext2 import UNITS as _U2; UNITS = UNITS + _U2
+from props.c14_ext5 import UNITS as _U5; UNITS = UNITS + _U5
